@@ -58,6 +58,21 @@ def strategy(tier):
                      gen.multi_recipe(replace(CFG, max_cols=6, multi_grouping=True)))
 
 
+def enumerate_cases(tier):
+    """Multi-section documents in which every section runs over several pages (repeated headers) and the sections differ in
+    column count and widths."""
+    def sec(i, ncol, n, widths=None, headers="explicit"):
+        cols = [{"name": f"@N{i}x{j}", "dtype": "str", "values": [f"s{i}r{r}c{j}" for r in range(n)]} for j in range(ncol)]
+        body = {"col_rel_width": widths} if widths else {}
+        hd = [{"text": [f"@H{i}.{c}" for c in range(ncol)]}] if headers == "explicit" else "default"
+        return {"df": {"cols": cols}, "body": body, "headers": hd}
+    for nrow in (5, 8):
+        for shapes in ([(3, [1, 2, 3]), (5, None)], [(5, None), (3, [1, 2, 3]), (2, [3, 1])], [(2, None), (4, [1, 1, 2, 2]), (4, [2, 2, 1, 1])]):
+            for headers in ("explicit", "default"):
+                yield {"kind": "multi", "page": {"nrow": nrow}, "header_layout": "nested",
+                       "sections": [sec(i, nc, 14, w, headers) for i, (nc, w) in enumerate(shapes)]}
+
+
 def budget(tier):
     return 150 if tier == "quick" else 3500
 
@@ -145,10 +160,28 @@ def check(case) -> Result:
     si = 0
     multirow = False
     removed = sum(len(R.removed_columns(s)) for s in secs)
+    # which section does every data row belong to (rows are rendered section by section, in order)?
+    owner, left, cur = {}, [R.nrows(s) for s in secs], 0
     for items in pages:
         for it in items:
+            if it.role == "data":
+                while cur < len(secs) - 1 and left[cur] == 0:
+                    cur += 1
+                left[cur] -= 1
+                owner[id(it)] = cur
+    for items in pages:
+        for pos, it in enumerate(items):
             if it.role not in ("header", "heading", "data", "fnrow", "srcrow"):
                 continue
+            if it.role == "header":
+                # a header row labels the data rows below it: the next data row on the page belongs to the header's own section
+                sec_h, _ = locate_header(secs, it.texts[0], si)
+                nxt = next((x for x in items[pos + 1:] if x.role == "data"), None)
+                res.checks += 1
+                if sec_h is not None and nxt is not None and R.nrows(secs[sec_h]) > 0 and owner.get(id(nxt)) != sec_h \
+                        and len({tuple(h["text"]) for s_ in secs if isinstance(s_.get("headers"), list) for h in s_["headers"] if h and h.get("text")}) \
+                        == sum(1 for s_ in secs if isinstance(s_.get("headers"), list) for h in s_["headers"] if h and h.get("text")):
+                    res.fail("alignment", "header_of_another_section", f"header {it.texts[:3]} (section {sec_h}) above data rows of section {owner.get(id(nxt))}")
             cells = it.block.cells
             xs = [c.cellx for c in cells]
             res.checks += 1
